@@ -1,0 +1,32 @@
+//go:build verif
+// +build verif
+
+package tindex
+
+import "sort"
+
+// VerifState returns (readers, exclusive, exists) of the partition source src, read under the service lock.
+// Verification harness only (build tag verif).
+func VerifState(s Service, src string) (readers int, exclusive bool, exists bool) {
+	ims := s.(*inmemService)
+	ims.lock.Lock()
+	defer ims.lock.Unlock()
+	td, ok := ims.smap[src]
+	if !ok {
+		return 0, false, false
+	}
+	return td.readers, td.exclusive, true
+}
+
+// VerifSources returns the sources currently registered, sorted.
+func VerifSources(s Service) []string {
+	ims := s.(*inmemService)
+	ims.lock.Lock()
+	defer ims.lock.Unlock()
+	res := make([]string, 0, len(ims.smap))
+	for src := range ims.smap {
+		res = append(res, src)
+	}
+	sort.Strings(res)
+	return res
+}
